@@ -22,6 +22,7 @@ struct cfg {
   int release_at; /* >=0: the application releases the session after this many events */
   int sni;
   int nohint;     /* the server is configured without an identity hint */
+  int tls;        /* TLS over a (simulated) TCP stream instead of DTLS: no loss, the stream is pumped until quiet */
   int lose_first; /* the network loses the first k datagrams the client sends (copies of its first handshake flight) */
   int maxretx;    /* >0: MAX_RETRANSMIT of the client session (also the number of handshake retransmissions libcoap makes) */
   int sni_case;   /* SV_SNI only: which name / key the second client uses (see sni_cases) */
@@ -238,6 +239,23 @@ on_send(const ns_dgram_t *d) {
   }
 }
 
+/* TLS: every byte either side writes to the stream */
+static void
+tls_filter(ns_stream_t *st, int from_side, uint8_t *data, size_t *len, size_t cap) {
+  (void)st;
+  (void)cap;
+  vx_observe("t=%llu %s stream write len=%zu first=%d", (unsigned long long)ns_now(), from_side == 0 ? "C" : "S", *len, *len ? data[0] : -1);
+  static const char *needles[] = {"secret", "s3cr3t-path"};
+  for (unsigned k = 0; k < 2; k++) {
+    size_t nl = strlen(needles[k]);
+    for (size_t i = 0; i + nl <= *len; i++)
+      if (!memcmp(data + i, needles[k], nl)) {
+        vx_fail("cleartext-on-wire:application-bytes:tls", "application bytes '%s' visible on the TLS stream", needles[k]);
+        return;
+      }
+  }
+}
+
 static void
 submit_all(void) {
   nq = 0;
@@ -388,7 +406,7 @@ run(void *arg) {
     return;
   }
   coap_register_event_handler(sc, ev_s);
-  coap_new_endpoint(sc, &srv_addr, COAP_PROTO_DTLS);
+  coap_new_endpoint(sc, &srv_addr, C->tls ? COAP_PROTO_TLS : COAP_PROTO_DTLS);
   coap_resource_t *r = coap_resource_init(coap_make_str_const("s3cr3t-path"), 0);
   coap_register_request_handler(r, COAP_REQUEST_GET, hnd);
   coap_add_resource(sc, r);
@@ -486,19 +504,46 @@ run(void *arg) {
     cpsk.client_sni = (char *)(uintptr_t)sni_cases[C->sni_case].sni;
     memcpy(keybuf, sni_cases[C->sni_case].key, 16);
   }
-  cs = coap_new_client_session_psk2(cc, &cli_addr, &srv_addr, COAP_PROTO_DTLS, &cpsk);
+  cs = coap_new_client_session_psk2(cc, &cli_addr, &srv_addr, C->tls ? COAP_PROTO_TLS : COAP_PROTO_DTLS, &cpsk);
   if (!cs) {
     vx_fail("harness:client-session", "coap_new_client_session_psk2 failed");
     return;
   }
   if (C->maxretx)
     coap_session_set_max_retransmit(cs, (uint16_t)C->maxretx);
+  if (C->tls)
+    ns_stream_filter = tls_filter;
   submit_all();
   int steps = 0;
-  while (steps++ < 800 && step())
-    ;
-  if (steps >= 800)
-    vx_fail("horizon:steps", "scenario did not become quiescent within 800 events");
+  if (C->tls) {
+    /* reliable transport: everything written is delivered in order; timers fire when nothing else can happen */
+    for (; steps < 400; steps++) {
+      unsigned tmo = ns_prepare_all();
+      int moved = ns_stream_pump();
+      if (moved > 1)
+        continue;
+      if (tmo && tmo < 200000 && ns_now() < 900000)
+        ns_advance(tmo);
+      else
+        break;
+    }
+  } else {
+    while (steps++ < 800 && step())
+      ;
+  }
+  if (steps >= (C->tls ? 400 : 800))
+    vx_fail("horizon:steps", "scenario did not become quiescent within the event horizon");
+  if (C->tls && !matching && cs) {
+    /* a stream has no retransmission time-outs: a handshake that cannot succeed ends, at the latest, when the application
+     * releases the session -- which is where the statement wants the NACKs at the latest */
+    coap_session_release(cs);
+    cs = NULL;
+    for (int k = 0; k < 20; k++) {
+      ns_prepare_all();
+      if (ns_stream_pump() <= 1)
+        break;
+    }
+  }
   /* verdicts */
   char oc[120] = "";
   size_t o = 0;
@@ -551,7 +596,7 @@ run(void *arg) {
         snprintf(sig, sizeof sig, "nack-count=%d:%s%s", Q[i].nacks, C->sv == SV_SNI ? sni_cases[C->sni_case].label : cl_names[C->cl], C->release_at >= 0 ? ":released" : "");
         vx_fail(sig, "Confirmable request %d queued on a session whose handshake cannot succeed got %d NACKs (expected exactly 1)", i, Q[i].nacks);
       }
-      if (!Q[i].con && Q[i].nacks)
+      if (!Q[i].con && Q[i].nacks && !C->tls)
         vx_fail("nack-for-NON", "NON request %d was NACKed", i);
     } else if (C->release_at >= 0) {
       /* released by the application: every CON either completed before or is reported by exactly one NACK */
@@ -577,8 +622,8 @@ static int ncfgs;
 static void
 add(struct cfg c) {
   cfgs = realloc(cfgs, sizeof *cfgs * (size_t)(ncfgs + 1));
-  snprintf(c.name, sizeof c.name, "c19:sv=%d,cl=%s,ncon=%d,non=%d,inj=%d@%d,rel=%d,sni=%d/%d,nh=%d,mr=%d,lf=%d,fd=%d,B=%d", c.sv, cl_names[c.cl], c.ncon, c.with_non, c.inject,
-           c.inject_at, c.release_at, c.sni, c.sni_case, c.nohint, c.maxretx, c.lose_first, c.free_drops, c.bound);
+  snprintf(c.name, sizeof c.name, "c19:sv=%d,cl=%s,ncon=%d,non=%d,inj=%d@%d,rel=%d,sni=%d/%d,nh=%d,mr=%d,lf=%d,tls=%d,fd=%d,B=%d", c.sv, cl_names[c.cl], c.ncon, c.with_non, c.inject,
+           c.inject_at, c.release_at, c.sni, c.sni_case, c.nohint, c.maxretx, c.lose_first, c.tls, c.free_drops, c.bound);
   cfgs[ncfgs++] = c;
 }
 
@@ -594,6 +639,13 @@ main(int argc, char **argv) {
           c.bound = 3;
         if (!T && q && cl != CL_MATCH && cl != CL_WRONG_KEY)
           c.bound = 1;
+        add(c);
+      }
+  /* the credential product over TLS (CoAP over TCP with the same PSK machinery) */
+  for (int sv = 0; sv < 2; sv++)
+    for (int cl = 0; cl < CL_NCLASSES; cl++)
+      for (int q = 0; q < 2; q++) {
+        struct cfg c = {.sv = sv, .cl = cl, .ncon = q ? 3 : 1, .with_non = q, .release_at = -1, .sni = (sv + cl) % 2, .tls = 1, .bound = 0};
         add(c);
       }
   /* matching credentials, MAX_RETRANSMIT 2: the loss of the first one or two copies of the client's first flight must be survived */
@@ -647,7 +699,7 @@ main(int argc, char **argv) {
              "longer / other-case / absent names; all schedules with <= bound drop/duplicate/reorder deviations "
              "over the first 14 datagrams; cleartext CoAP injected from the client's and a third address at each step; application release "
              "mid-handshake; every drop subset of the first 6 (quick) / 10 (thorough) datagrams; non-trivial = deviation taken");
-  vx_ev_assumption("PSK only, GnuTLS back-end, DTLS only (TLS over stream sockets is not driven)");
+  vx_ev_assumption("PSK only, GnuTLS back-end; TLS over the simulated TCP stream is driven for the credential product without faults (a stream does not lose data), judged after the application released a session whose handshake cannot succeed");
   vx_ev_assumption("every emitted datagram must start with a DTLS record content type 20..25 and must not contain the application's path/payload bytes");
   for (int i = 0; i < ncfgs; i++)
     if (vx_replay_if_match(cfgs[i].name, run, &cfgs[i]))
